@@ -786,7 +786,7 @@ func c19Search(r *mc.Report, npool, maxDeps, maxStates int, shard, nshards int) 
 func init() {
 	mc.Register(&mc.Check{
 		Prop:   "C19",
-		Rule:   "explicit-state BFS directly on internal/graph: alphabet {AddProvider(n, ordered deps of length<=2 over the pool), AddProviderDeferred, RemoveProvider(n), Clear, DetectCycles}, node pool of 3 (quick) / 4 (thorough) identities mixing type, key and group; successors by replay on a fresh real graph; states de-duplicated by (model digraph, reflective deep dump of the real graph object incl. caches, dirty flags, degree fields), searched to closure or the state cap; after every transition every query is issued twice in two different orders and compared with the model; a rejected add must leave the deep dump unchanged. Plus every DAG on 4 and on 5 nodes (all 64 / 1024 edge sets respecting one topological order x all 24 / 120 relabellings of the nodes), built deferred+DetectCycles and immediately, from the canonical and the reversed base map order, with every query (depths, transitive dependencies, roots / leaves, topological order) compared with the model. distinct = distinct canonical states.",
+		Rule:   "explicit-state BFS directly on internal/graph: alphabet {AddProvider(n, ordered deps of length<=2 over the pool, the same node twice included), AddProviderDeferred, RemoveProvider(n), Clear, DetectCycles}, node pool of 3 (quick) / 4 (thorough) identities mixing type, key and group; successors by replay on a fresh real graph; states de-duplicated by (model digraph, reflective deep dump of the real graph object incl. caches, dirty flags, degree fields), searched to closure or the state cap; after every transition every query is issued twice in two different orders and compared with the model; a rejected add must leave the deep dump unchanged. Plus every DAG on 4 and on 5 nodes (all 64 / 1024 edge sets respecting one topological order x all 24 / 120 relabellings of the nodes), built deferred+DetectCycles and immediately, from the canonical and the reversed base map order, with every query (depths, transitive dependencies, roots / leaves, topological order) compared with the model. distinct = distinct canonical states.",
 		Assume: []string{"roots/leaves are defined by the component's in/out-degree convention (roots: no dependents, leaves: no dependencies)", "queries that read degree fields are only compared after the documented DetectCycles following deferred adds"},
 		Jobs: func(tier string) []mc.Job {
 			dags := func() []mc.Job {
